@@ -236,9 +236,8 @@ func (t *Term) FeedReplies(b []byte) []Reply {
 // terminal sends back (replies to queries), in order.
 func (t *Term) Feed(b []byte) []byte {
 	t.out = t.out[:0]
-	for _, it := range t.p.Feed(b) {
-		t.dispatch(it)
-	}
+	t.p.Sink = t.dispatch
+	t.p.Feed(b)
 	return append([]byte(nil), t.out...)
 }
 
